@@ -211,7 +211,7 @@ def gen_spec(rng, r, ents):
     g = catalog.Choices(rng=rng, seed_value=rng.randrange(3), callback=(lambda *a, **k: None) if e["cb"] else None)
     e["build"](g)  # only to record a choice sequence of the right length
     return {"entry": e["name"], "choices": list(g.rec), "seed": g.seed_value, "tenalg": "einsum" if rng.random() < 0.3 else "core",
-            "dtype": "float32" if rng.random() < 0.15 else "float64"}
+            "dtype": rng.choice(["float64"] * 16 + ["float32"] * 2 + ["int64", "complex128"])}
 
 
 def worker(chunk):
@@ -393,7 +393,7 @@ def replay_file(path):
 
 # ------------------------------------------------------------------ driver interface
 
-QUICK_RUNS = 4000
+QUICK_RUNS = 3600
 CHUNK = 10
 CHUNK_TIMEOUT = 900
 THOROUGH_S = 1200
